@@ -179,6 +179,9 @@ pub struct Run {
     pub hook_log: bool,
     pub hook_delay: Option<String>,
     pub workers: Option<usize>,
+    /// Pin the process to this one CPU (what a single-core target or a constrained
+    /// container looks like to num_cpus: default pipeline widths become 1).
+    pub one_cpu: Option<usize>,
     pub blockdev: Option<PathBuf>,
     pub rlimit_cpu_s: Option<u64>,
     pub rlimit_as: Option<u64>,
@@ -207,6 +210,7 @@ impl Run {
             hook_log: false,
             hook_delay: None,
             workers: None,
+            one_cpu: None,
             blockdev: None,
             rlimit_cpu_s: Some(120),
             rlimit_as: None,
@@ -348,8 +352,15 @@ pub fn run(r: &Run) -> Outcome {
     cmd.stdout(Stdio::piped());
     cmd.stderr(Stdio::piped());
     let (cpu, asz, fsz) = (r.rlimit_cpu_s, r.rlimit_as, r.rlimit_fsize);
+    let one_cpu = r.one_cpu;
     unsafe {
         cmd.pre_exec(move || {
+            if let Some(c) = one_cpu {
+                let mut set: libc::cpu_set_t = std::mem::zeroed();
+                libc::CPU_ZERO(&mut set);
+                libc::CPU_SET(c % (libc::sysconf(libc::_SC_NPROCESSORS_ONLN).max(1) as usize), &mut set);
+                libc::sched_setaffinity(0, std::mem::size_of::<libc::cpu_set_t>(), &set);
+            }
             let set = |res, v: u64| {
                 let lim = libc::rlimit {
                     rlim_cur: v,
